@@ -1082,3 +1082,24 @@ def rule_collect_ids(ctx, facts, rule):
         same = rl == dst and any(x.kind != "const" and any(v[0] == "call" and v[2] == fa[0] for v in x.via) for x in prov.of_local(fn, 0))
     ctx.check(ok and same, rule, fn.path, fn.span, "start_collect returns NEXT_COLLECT_ID.fetch_add(c != 0) and sends StartCollect with the same id", "",
               "fetch_add sites %s, same id sent and returned: %s" % (fa, same), extra="ids")
+
+
+def rule_attachments_are_new_entries(ctx, facts, rule):
+    """C06-R1b: a local event / property set is always recorded as a new pseudo-span under the current innermost span;
+    it is never merged into an entry recorded earlier (whose parent may be a span that has finished since)."""
+    from . import scopes
+    prov = Prov(facts)
+    for name in ("add_event", "add_properties"):
+        fn = facts.fn("fastrace::local::span_queue::SpanQueue::" + name)
+        if fn is None:
+            ctx.fail(rule, "SpanQueue::" + name, "-", "anchor exists", "anchor lost", extra="anchor")
+            continue
+        pushes = scopes.field_pushes(fn, prov, "span_queue", "RawSpan")
+        refuse, accept = scopes.capacity_edges(fn, prov, "span_queue")
+        ok, wit = fn.must_pass([(a, d) for a, d, _ in accept], pushes) if accept else (False, None)
+        touch = [fn.loc(b) for b in fn.calls_re(r"(last_mut|first_mut|get_mut|iter_mut|IndexMut(<.*>)?>?::index_mut|split_last_mut)$", cleanup=False)
+                 if has_origin(prov.of_operand(fn, fn.term(b)["args"][0]), kind="param", key=1, path_suffix=(".span_queue",))]
+        ctx.check(ok and bool(pushes) and not touch, rule, fn.path, fn.span,
+                  "SpanQueue::%s pushes a new entry on every accepted path and never modifies an entry recorded earlier" % name,
+                  "push at %s" % [fn.loc(b) for b in pushes],
+                  "accepted path without a push (bb%s) or earlier entries modified at %s" % (wit, touch), extra="new-entry")
